@@ -440,6 +440,8 @@ pub uninterp spec fn lookup_local(n: &Node, name: Seq<char>) -> Option<Ident>;
 // idents registered in a scope are typed (AssocFileData::add_dependency is only called on typed idents): assumed
 #[verifier::external_body] pub fn has_name_been_mapped_in_function(n: &Node, name: &VStr) -> (r: Option<Ident>) ensures r == lookup_in_function(n, str_view(name)), r is Some ==> r->Some_0.ty is Some { unimplemented!() }
 #[verifier::external_body] pub fn get_ident_from_name_local(n: &Node, name: &VStr) -> (r: Option<Ident>) ensures r == lookup_local(n, str_view(name)), r is Some ==> r->Some_0.ty is Some { unimplemented!() }
+pub uninterp spec fn lookup_dependency(n: &Node, name: Seq<char>) -> Option<Ident>;      // every visible scope, captured variables of enclosing functions included
+#[verifier::external_body] pub fn get_dependency_ident_from_name(n: &Node, name: &VStr) -> (r: Option<Ident>) ensures r == lookup_dependency(n, str_view(name)), r is Some ==> r->Some_0.ty is Some { unimplemented!() }
 #[verifier::external_body] pub struct Block { x: usize }
 pub struct NumberLoop { pub inclusive: bool, pub val_start: Value, pub val_end: Value, pub step: Option<Value>, pub name: Option<Ident>, pub body: Block, pub name_is_collision: bool }
 pub uninterp spec fn inclusive_rule(n: &Node) -> bool;
@@ -469,6 +471,7 @@ def build_number_loop(repo):
         Rule("R9", "name . as_ref ( ) . and_then ( | ( ident , _ ) | { $$b } )", "match & name { Some ( ( ident , _ ) ) => { $$b } , None => None }", why="Option::and_then with a closure -> match"),
         Rule("R6", "input . user_data ( ) . has_name_been_mapped_in_function ( $i . name ( ) )", "has_name_been_mapped_in_function ( & input , & $i . name )", why="scope lookup abstract"),
         Rule("R6", "input . user_data ( ) . get_ident_from_name_local ( $i . name ( ) )", "get_ident_from_name_local ( & input , & $i . name )", why="scope lookup abstract (innermost scope only)"),
+        Rule("R6", "input . user_data ( ) . get_dependency_flags_from_name ( $i . name ( ) ) . map ( | ( $p , _ ) | $p . clone ( ) )", "get_dependency_ident_from_name ( & input , & $i . name )", why="scope lookup abstract (every visible scope: beyond the function too)"),
         Rule("R1", ". map ( | $v | $v . clone ( ) )", "", why="Option<&Ident> -> Option<Ident>: the abstract lookup already returns an owned ident"),
         Rule("R1", ". cloned ( )", "", why="Option<&Ident> -> Option<Ident>"),
         Rule("R6", "! collision . ty ( ) . unwrap ( ) . eq_complex ( & step_output_type , & TypecheckFlags :: < & ClassType > :: classless ( ) , )",
